@@ -21,7 +21,8 @@ CLAIMS = {
             "CURVE_FACTORY table are executed definitely entry by entry, so every per-curve body is also evaluated on an empty partition. "
             "Only definite exceptions are violations; the result must be the constant False. Separately every value drawn from CURVE_FACTORY "
             "must be None-tested before it is dereferenced (binary-field/unknown curves), subscripts into the table must have keys of proven "
-            "provenance, the issuer index map must only hold non-empty lists, and every Check returns its boolean accumulator without a raise in the body.",
+            "provenance, the issuer index map must only hold non-empty lists, every window handed to the lattice code is non-empty (window starts bounded by len(a): R-C18-WINDOW), "
+            "and every Check returns its boolean accumulator without a raise in the body.",
             "Trusted: Python container semantics, the abstract evaluator. Not decided: arithmetic exceptions on degenerate *values* "
             "(e.g. invert(0, p) for a crafted off-curve point), which need value reasoning.",
             "DESIGN.md section 3 C18"),
@@ -58,8 +59,10 @@ CLAIMS = {
             "the 17 longest-run, 6 + 33 rank, 32 universal (L <= 10 quick, 16 thorough), 11 min_n, 14 linear-complexity literals and the random-excursions "
             "polynomials equal exact derivations to one unit in the last printed digit (the M = 10^4 longest-run row is NIST's published, inexact one: 7 known findings "
             "keyed by literal); table shapes agree with their consumers; each of the nine InsufficientDataError guards equals the documented minimum on all regions; "
-            "the cusum extrema are provably on the right side of S_0 = 0 (exposed the defect repaired by fix 0d3e4df).",
-            "Not decided: the floating-point p-value formulas, the [0,1] range and the invariance clauses (runtime values). Shape rules (R-C12-CONSIST) compare normalised statements and are the most refactoring-sensitive part.",
+            "the cusum extrema are provably on the right side of S_0 = 0 (exposed the defect repaired by fix 0d3e4df); and the *term shape* of the statistics of ten tests "
+            "(Frequency, Runs, BlockFrequency, ChiSquare, template mean/variance, Universal correction, Serial, ApproximateEntropy, both cusum series incl. their summation "
+            "bounds, random-excursion statistics) equals the SP 800-22 formula as a rational function of its function atoms (R-C12-FORMULA, pcstatic/ratfun.py).",
+            "Not decided: the floating-point *values* of the p-values, the [0,1] range and the invariance clauses (runtime values). Shape rules (R-C12-CONSIST) compare normalised statements and are the most refactoring-sensitive part.",
             "DESIGN.md section 3 C12"),
     "C09": ("proof", "symbolic evaluation to polynomial identities modulo n (congruence stripping of `% n`, inverse atom), piecewise region equivalence, converter writer/reader agreement",
             "HiddenNumberParams: with si = invert(s, n) the returned pair satisfies a + b*d - si*(z + r*d) == 0 as a polynomial identity after stripping the reductions "
@@ -105,7 +108,8 @@ CLAIMS = {
             "CheckOpensslDenylist the disjunction of path conditions under which the verdict is positive is extracted and proved equivalent to the specification predicate "
             "on every region / boolean assignment (flag set <=> criterion, on the same key). Prime tables equal the checker's sieve; the discrete-log membership loop "
             "enumerates the whole cyclic group compare-then-multiply; the denylist key grammar agrees between check and storage (evaluated on an abstract 40-digit digest); "
-            "keypair table key / seed reconstruction / regeneration size; proto CurveType vs CURVE_FACTORY exhaustiveness with binary-field curves mapped to None.",
+            "keypair table key / seed reconstruction / regeneration size; the keypair generator emulation replays the vulnerable generator's control flow (retry loop keeps the larger prime, "
+            "mod-30 wheel table, byte window, sha1 seed chain: R-C06-KEYGEN); proto CurveType vs CURVE_FACTORY exhaustiveness with binary-field curves mapped to None.",
             "Not decided: that the shipped keypair table is complete for all covered seeds (binary data; regeneration needs AES at run time). Some structure checks of __init__ bodies compare normalised statements.",
             "DESIGN.md section 3 C06"),
     "C13": ("other", "decision-table extraction over the finite weak orderings of the compared quantities (symbolic path walk incl. except handlers), truth tables, structural entry-point and registry analysis",
